@@ -370,3 +370,26 @@ Definition wire_69 (x : sx) : sx :=
                  (product (map zrange sh)))
   | _ => sx_err
   end.
+
+(* ------------------------------------------------------------------------------------------------ *)
+(* 5. a store that serves views of arrays it owns (chunkstore_dict.DictChunkStore.get_chunk): what it answers for a
+   request (per axis: slice start..stop) against an array of the given shape *)
+Inductive lookup_result := Found | NotFound | Malformed.     (* the chunk | ChunkNotFound | BadChunk *)
+
+Definition dict_get_chunk (shape : list Z) (sl : list (Z * Z)) : lookup_result :=
+  if existsb (fun sn => Generated.gen_dict_outside (fst (fst sn)) (snd (fst sn)) (snd sn)) (combine sl shape) then NotFound
+  else if forallb (fun sn => (0 <=? fst (fst sn)) && (fst (fst sn) <=? snd (fst sn)) && (snd (fst sn) <=? snd sn)) (combine sl shape)
+       then Found else Malformed.
+
+(* the request for chunk j of a chunk list (Model.Prune.cstart) *)
+Definition chunk_slice (cs : list Z) (j : nat) : Z * Z := (cstart cs j, cstart cs (S j)).
+
+(* (shape ((start stop) ...)) -> 0 found / 1 not found / 2 malformed *)
+Definition wire_601 (x : sx) : sx :=
+  match x with
+  | L [shape; sl] =>
+      I (match dict_get_chunk (to_Zs shape)
+                 (map (fun s => match s with L [I a; I b] => (a, b) | _ => (0, 0) end) (to_list sl)) with
+         | Found => 0 | NotFound => 1 | Malformed => 2 end)
+  | _ => sx_err
+  end.
